@@ -52,6 +52,8 @@ def eval_index_expr(e, env):
             return a * b
         if isinstance(e.op, ast.FloorDiv):
             return a // b
+        if isinstance(e.op, ast.Mod):
+            return a % b
         raise _Cannot('op')
     if isinstance(e, ast.Call):
         d = dotted(e.func)
